@@ -2,8 +2,8 @@
 //! collects their summaries, re-checks determinism on a sample, runs the pinned
 //! regressions, prints VIOLATION / KNOWN-FINDING lines and writes the evidence file.
 
-use crate::judge::{generate_and_run, judge_plan, minimise, Violation};
-use crate::plan::{Cfg, Expect, Replay, Step};
+use crate::judge::{generate_and_run, judge_plan, minimise, minimise_with, Violation};
+use crate::plan::{Cfg, Expect, Prelude, Replay, Step};
 use crate::run::plan_hash;
 use crate::stats::{Stats, STATE_SAMPLE};
 use serde::{Deserialize, Serialize};
@@ -151,9 +151,27 @@ pub fn write_replay(
     original_len: usize,
     note: &str,
 ) -> String {
+    write_replay_to(None, prop, seed, run, tier, cfg, replicas, plan, v, original_len, note, None)
+}
+
+#[allow(clippy::too_many_arguments)]
+pub fn write_replay_to(
+    file: Option<&Path>,
+    prop: &str,
+    seed: u64,
+    run: u64,
+    tier: &str,
+    cfg: &Cfg,
+    replicas: &[Cfg],
+    plan: &[Step],
+    v: &Violation,
+    original_len: usize,
+    note: &str,
+    prelude: Option<Prelude>,
+) -> String {
     let dir = verif_dir().join("replays");
     let _ = std::fs::create_dir_all(&dir);
-    let path = dir.join(format!("{prop}-{seed}-{run}.json"));
+    let path = file.map_or_else(|| dir.join(format!("{prop}-{seed}-{run}.json")), Path::to_path_buf);
     let r = Replay {
         property: prop.to_string(),
         seed,
@@ -170,6 +188,7 @@ pub fn write_replay(
         original_plan_len: original_len,
         sodg_rev: std::env::var("VERIF_SODG_REV").unwrap_or_default(),
         note: note.to_string(),
+        prelude,
     };
     std::fs::write(&path, serde_json::to_string_pretty(&r).unwrap()).unwrap();
     path.to_string_lossy().into_owned()
@@ -184,7 +203,7 @@ pub fn worker(prop: &str, tier: &str, seed: u64, from: u64, to: u64, out: &Path,
         to,
         ..WorkerOut::default()
     };
-    // self-watchdog: a run that makes no progress for 60 s is a hang
+    // self-watchdog: a run that makes no progress for HANG_SECS is a hang
     let current = Arc::new(AtomicU64::new(u64::MAX));
     let beat = Arc::new(AtomicU64::new(0));
     {
@@ -195,12 +214,12 @@ pub fn worker(prop: &str, tier: &str, seed: u64, from: u64, to: u64, out: &Path,
             let mut since = Instant::now();
             loop {
                 std::thread::sleep(Duration::from_millis(500));
-                let now = (current.load(Ordering::Relaxed), beat.load(Ordering::Relaxed));
+                let now = (current.load(Ordering::Relaxed), beat.load(Ordering::Relaxed) + crate::run::HEARTBEAT.load(Ordering::Relaxed));
                 let _ = std::fs::write(&progress, format!("{}", now.0));
                 if now != last {
                     last = now;
                     since = Instant::now();
-                } else if now.0 != u64::MAX && since.elapsed() > Duration::from_secs(60) {
+                } else if now.0 != u64::MAX && since.elapsed() > Duration::from_secs(HANG_SECS) {
                     println!("HANG run={}", now.0);
                     let _ = std::io::stdout().flush();
                     std::process::exit(3);
@@ -240,8 +259,8 @@ pub fn worker(prop: &str, tier: &str, seed: u64, from: u64, to: u64, out: &Path,
         if let Some(v) = g.verdict.violation {
             w.violation_count += 1;
             if w.violations.len() < 3 {
-                let (mcfg, mplan, mv, tries) = minimise(prop, &g.cfg, &g.replicas, &g.out.plan, &v, 2_000);
-                let path = write_replay(
+                let (mut mcfg, mut mplan, mut mv, mut tries) = minimise(prop, &g.cfg, &g.replicas, &g.out.plan, &v, 2_000);
+                let mut path = write_replay(
                     prop,
                     seed,
                     run,
@@ -251,8 +270,41 @@ pub fn worker(prop: &str, tier: &str, seed: u64, from: u64, to: u64, out: &Path,
                     &mplan,
                     &mv,
                     g.out.plan.len(),
-                    "minimised by delta debugging; replays in a fresh process",
+                    "minimised by delta debugging; verified to reproduce in a fresh process",
                 );
+                // a replay must be a pure function of the file and the code: confirm it in a fresh process
+                if !reproduces_in_child(Path::new(&path)) {
+                    w.stats.bump("replay.minimised_plan_needed_process_state");
+                    let full = write_replay(prop, seed, run, tier, &g.cfg, &g.replicas, &g.out.plan, &v, g.out.plan.len(), "unminimised plan");
+                    if reproduces_in_child(Path::new(&full)) {
+                        // the code under test keeps state between graphs: minimise with one fresh
+                        // process per candidate, so that no candidate inherits an earlier one's state
+                        let scratch = scratch_dir().join(format!("cand-{}-{run}.json", std::process::id()));
+                        let mut child_judge = |c: &Cfg, cand: &[Step]| -> Option<Violation> {
+                            write_replay_to(Some(&scratch), prop, seed, run, tier, c, &g.replicas, cand, &v, g.out.plan.len(), "candidate", None);
+                            reproduces_in_child(&scratch).then(|| v.clone())
+                        };
+                        let r = minimise_with(&g.cfg, &g.out.plan, &v, 250, &mut child_judge);
+                        let _ = std::fs::remove_file(&scratch);
+                        (mcfg, mplan, _, tries) = r;
+                        mv = Violation { clause: v.clause.clone(), step: mplan.len().saturating_sub(1), message: v.message.clone() };
+                        path = write_replay(prop, seed, run, tier, &mcfg, &g.replicas, &mplan, &mv, g.out.plan.len(), "minimised with one fresh process per candidate (the code under test keeps state between graphs)");
+                    } else {
+                        // not even the whole plan fails alone: it needs the state earlier runs of this
+                        // worker left in the process; the replay re-executes them first
+                        mcfg = g.cfg.clone();
+                        mplan = g.out.plan.clone();
+                        mv = v.clone();
+                        path = write_replay_to(
+                            None, prop, seed, run, tier, &mcfg, &g.replicas, &mplan, &mv, g.out.plan.len(),
+                            "depends on state left in the process by earlier runs of the same worker; replay executes the prelude runs first",
+                            Some(Prelude { property: prop.to_string(), seed, thorough, from, to: run }),
+                        );
+                        if !reproduces_in_child(Path::new(&path)) {
+                            w.stats.bump("replay.not_reproducible_in_fresh_process");
+                        }
+                    }
+                }
                 w.violations.push(ViolationRec {
                     run,
                     clause: mv.clause.clone(),
@@ -306,6 +358,20 @@ fn known_findings() -> Vec<Known> {
     out
 }
 
+/// Does `replay <file>` report a violation when run in a fresh process?
+fn reproduces_in_child(file: &Path) -> bool {
+    let exe = std::env::current_exe().unwrap();
+    let child = Command::new(exe).arg("replay").arg(file).stdout(Stdio::null()).stderr(Stdio::null()).spawn();
+    match child {
+        Ok(c) => {
+            let r = matches!(wait_timeout(c, HANG_SECS + 20), Some(s) if s.code() == Some(1));
+            crate::run::HEARTBEAT.fetch_add(1, Ordering::Relaxed);
+            r
+        }
+        Err(_) => false,
+    }
+}
+
 fn scratch_dir() -> PathBuf {
     let d = verif_dir().join("sim").join("scratch");
     let _ = std::fs::create_dir_all(&d);
@@ -343,6 +409,27 @@ fn spawn_worker(prop: &str, tier: &str, seed: u64, from: u64, to: u64, tag: &str
         to,
     }
 }
+
+/// Wait for a child at most `secs` seconds; a child that does not finish is killed (`None`).
+fn wait_timeout(mut child: std::process::Child, secs: u64) -> Option<std::process::ExitStatus> {
+    let t0 = Instant::now();
+    loop {
+        match child.try_wait() {
+            Ok(Some(st)) => return Some(st),
+            Ok(None) => {
+                if t0.elapsed() > Duration::from_secs(secs) {
+                    let _ = child.kill();
+                    let _ = child.wait();
+                    return None;
+                }
+                std::thread::sleep(Duration::from_millis(50));
+            }
+            Err(_) => return None,
+        }
+    }
+}
+
+pub const HANG_SECS: u64 = 30;
 
 pub struct BatchResult {
     pub exit: i32,
@@ -594,7 +681,7 @@ fn locate_fatal_run(prop: &str, tier: &str, seed: u64, hint: u64, span: u64) -> 
     for run in cands {
         let journal = scratch_dir().join(format!("{prop}-{}-journal-{run}.jsonl", std::process::id()));
         let _ = std::fs::remove_file(&journal);
-        let st = Command::new(&exe)
+        let child = Command::new(&exe)
             .arg("journal")
             .arg(prop)
             .arg(tier)
@@ -604,11 +691,13 @@ fn locate_fatal_run(prop: &str, tier: &str, seed: u64, hint: u64, span: u64) -> 
             .env("ASAN_OPTIONS", "detect_leaks=0:abort_on_error=1:allocator_may_return_null=1")
             .stdout(Stdio::null())
             .stderr(Stdio::null())
-            .status()
+            .spawn()
             .ok()?;
+        // None = did not finish in time: a hang
+        let st = wait_timeout(child, HANG_SECS + 10);
         let txt = std::fs::read_to_string(&journal).unwrap_or_default();
         let _ = std::fs::remove_file(&journal);
-        if !st.success() {
+        if !st.is_some_and(|s| s.success()) {
             let mut lines = txt.lines();
             let cfg: Cfg = serde_json::from_str(lines.next()?).ok()?;
             let plan: Vec<Step> = lines.filter_map(|l| serde_json::from_str(l).ok()).collect();
@@ -701,7 +790,7 @@ fn write_evidence(
         "wall_s": wall,
         "violations": violations,
     });
-    let dir = verif_dir().join("evidence");
+    let dir = std::env::var("VERIF_EVIDENCE_DIR").map_or_else(|_| verif_dir().join("evidence"), PathBuf::from);
     let _ = std::fs::create_dir_all(&dir);
     std::fs::write(dir.join(format!("{prop}.json")), serde_json::to_string_pretty(&ev).unwrap()).unwrap();
 }
@@ -723,22 +812,37 @@ pub fn replay_file(path: &Path) -> i32 {
     if r.expect.clause.starts_with("process.") {
         // the plan kills its process: run it in a child
         let exe = std::env::var("VERIF_WORKER_EXE").map_or_else(|_| std::env::current_exe().unwrap(), PathBuf::from);
-        let st = Command::new(exe)
+        let child = Command::new(exe)
             .arg("exec-plan")
             .arg(path)
             .env("ASAN_OPTIONS", "detect_leaks=0:abort_on_error=1:allocator_may_return_null=1")
-            .status();
-        return match st {
-            Ok(s) if !s.success() => {
+            .spawn();
+        let Ok(child) = child else {
+            eprintln!("harness error: cannot start the child process");
+            return 2;
+        };
+        return match wait_timeout(child, HANG_SECS + 10) {
+            Some(s) if s.success() => {
+                println!("the plan passes on this tree (expected {})", r.expect.clause);
+                0
+            }
+            Some(s) => {
                 println!("reproduced: the child process died ({s:?})");
                 println!("VIOLATION property={} replay={}", r.property, path.display());
                 1
             }
-            _ => {
-                eprintln!("harness error: the plan no longer kills its process");
-                2
+            None => {
+                println!("reproduced: the child process did not finish within {} s (hang)", HANG_SECS + 10);
+                println!("VIOLATION property={} replay={}", r.property, path.display());
+                1
             }
         };
+    }
+    if let Some(p) = &r.prelude {
+        println!("executing the prelude: runs {}..{} of seed {} first", p.from, p.to, p.seed);
+        for run in p.from..p.to {
+            let _ = generate_and_run(&p.property, p.seed, run, p.thorough);
+        }
     }
     let (vd, _) = judge_plan(&r.property, &r.cfg, &r.replicas, &r.plan);
     match vd.violation {
